@@ -302,6 +302,55 @@ func checkCache(h *History, vs []*opView) {
 		}
 		return 1 << 62
 	}
+	// surelyArrived: the reply reached the proxy although no client was ever
+	// handed it: an ordinary reply of a well-behaved exchange (every exchange
+	// of that question is answered properly, within 2 s, nothing is lost on
+	// the way) on a connection the proxy was still reading when it came in.
+	// What a successful refresh fetched is one of these even when a broken
+	// cache throws it away.
+	surelyArrived := func(s *serialRec) bool {
+		u := h.Ups[s.up]
+		if !faultFree || u == nil || s.reply.Kind != "reply" || !allActs(h.RP.Tokens[s.token], replyAct) || s.reply.At-s.reply.QueryAt > 2*time.Second {
+			return false
+		}
+		if kind := u.Spec.Kind; kind == "https" || kind == "http" || kind == "h3" || kind == "quic" {
+			return false // no per-exchange connection identity at these fake servers
+		}
+		late := s.reply.At + upMax + sigma
+		if g, ok := u.ConnGone[s.reply.Conn]; ok && g < late {
+			return false
+		}
+		if g, ok := u.ConnAbandoned[s.reply.Conn]; ok && g < late {
+			return false
+		}
+		if u.Spec.Kind == "udp" {
+			if vnet.W == nil {
+				return false
+			}
+			if g, ok := vnet.W.ProxyUDPClosedAt(s.reply.Conn); ok && g < late {
+				return false
+			}
+		}
+		return true
+	}
+	// superseded: by the time given, a positive answer that may have been
+	// stored after s - and then took its place - is not live for sure any more
+	// (a refresh may come back with a much lower TTL than what was left of the
+	// entry it replaces): s itself cannot be counted on then.
+	superseded := func(list []*serialRec, s *serialRec, at time.Duration) bool {
+		for _, r := range list {
+			if r == s || !r.positive || r.tc {
+				continue
+			}
+			if r.groupKnown && s.groupKnown && r.group != s.group {
+				continue
+			}
+			if r.reply.At+upMax+sigma >= s.reply.At+upMin && r.reply.At+upMin <= at && at >= r.reply.At+upMin+r.lifetime-2100*time.Millisecond {
+				return true
+			}
+		}
+		return false
+	}
 	// redisKept: the answer is in the (fault-free, connected) second level for
 	// sure by the given time
 	// (only when there is no memory level in front: a small one may keep or
@@ -646,6 +695,9 @@ func checkCache(h *History, vs []*opView) {
 				if !ample && !redisKept(s, v.o.SentAt+clMin) {
 					continue
 				}
+				if superseded(list, s, arrive) {
+					continue
+				}
 				stored := arrivedBy(s)
 				if stored < v.o.SentAt+clMin && arrive < s.reply.At+upMin+s.lifetime-2100*time.Millisecond {
 					// later negative answers are set-if-absent and cannot replace it;
@@ -682,7 +734,7 @@ func checkCache(h *History, vs []*opView) {
 			// C19: after a successful positive refresh later hits see the new serial
 			var newest *serialRec
 			for _, s := range list {
-				if s.positive && !s.tc && s.groupKnown && s.group == myGroup && arrivedBy(s) < v.o.SentAt+clMin && reached(s, 1<<62) && (ample || redisKept(s, v.o.SentAt+clMin)) {
+				if s.positive && !s.tc && s.groupKnown && s.group == myGroup && arrivedBy(s) < v.o.SentAt+clMin && (reached(s, 1<<62) || surelyArrived(s)) && (ample || redisKept(s, v.o.SentAt+clMin)) {
 					if newest == nil || s.reply.At > newest.reply.At {
 						newest = s
 					}
@@ -761,6 +813,9 @@ func checkCache(h *History, vs []*opView) {
 					}
 					for _, s := range list {
 						if s == a || s == b || s.tc || !s.groupKnown || s.group != a.group || !reached(s, later.reply.QueryAt) || !storedForSure(list, s) {
+							continue
+						}
+						if superseded(list, s, later.reply.QueryAt) {
 							continue
 						}
 						liveFrom := arrivedBy(s)
